@@ -11,5 +11,11 @@ CLAIMS = {
   "note": "Trusted: the harness's close-code table (RFC 6455 7.4 + IANA) and frame parser; testing/synctest virtual time. Does not assert what Close returns when the peer answers with a different code or not at all (not stated by the property).",
   "technique": "exhaustive enumeration of close codes + rapid-generated histories against an independent code table and wire parser, in virtual time",
  },
+
+ "C03": {
+  "text": "Generated-input search against an independent reference receiver. Structured: rapid draws 1-5 messages, fragmentation (empty fragments, cuts inside compressed payloads), foreign deflater variants (sync flush, BFINAL=1 + 00, stored, multi-flush, levels), Ping/Pong at every position, 0-2 injected violations from the property's list (or a valid Close, or a non-minimal length after which comparison stops), 9 (role x negotiated compression) settings obtained through the real handshake, transport chunking down to one byte and read buffers 1..100000. Raw: byte-mutated valid streams and header-biased random strings. The library's delivered messages, Pongs, Close echo and failure point must equal the reference receiver's; panics are captured as failures. Thorough adds native coverage-guided fuzzing with the same differential oracle inside the target.",
+  "note": "Trusted: harness/ref (frame parser, receive model, inflater with explicit history), compress/flate as DEFLATE primitive. Not compared (excluded by the property): UTF-8, behaviour after a non-minimal length, output of malformed DEFLATE (incl. data after a BFINAL block), the status code of the Close sent after a violation. A CloseError is only required for a Close frame at a message boundary.",
+  "technique": "rapid structured generation + byte-level mutation (and native go fuzzing in thorough) with a differential oracle: independent RFC 6455/7692 reference receiver",
+ },
 }
 PENDING = {}
